@@ -143,7 +143,7 @@ Proof.
     destruct (all_some (map inj_value l)) as [r|] eqn:Er; [|discriminate]. inversion Hv; subst vs; clear Hv.
     destruct (IH Hb r eq_refl) as [r' [H1 [H2 [H3 H4]]]].
     assert (Hcnt : cnt (w :: l) = (if is_unparsable w then 1 else 0) + cnt l) by reflexivity.
-    destruct w as [m| |[m|]| |]; cbn in Ew; inversion Ew; subst x; try discriminate Hw;
+    destruct w as [m| |[m|]| | |]; cbn in Ew; inversion Ew; subst x; try discriminate Hw;
       cbn [map fill mon_value all_some]; rewrite H1; eexists; (split; [reflexivity|]);
       rewrite Hcnt; cbn [is_unparsable existsb orb]; rewrite !sumZ_cons, H2.
     all: split; [lia|].
@@ -220,4 +220,44 @@ Proof.
   intros Hc HD Hp Hl. rewrite <- (mon_used_sum c ws). split.
   - apply total_bounds; [assumption|apply mon_used_nonneg; lia|assumption|rewrite mon_used_length; assumption].
   - rewrite <- (mon_used_length c ws) at 1. apply total_complete.
+Qed.
+
+(* ---- a stage WITHOUT an entry, a stage whose ENTRY HAS NO WEIGHT (status executable / references only) and a stage
+   of weight 0.0 are loaded alike, and after loading every stage HAS a weight *)
+Lemma is_bad_as_zero given : existsb is_bad (map as_zero given) = existsb is_bad given.
+Proof. induction given as [|w l IH]; [reflexivity|]. cbn [map existsb]. rewrite IH. destruct w; reflexivity. Qed.
+
+Lemma inj_value_as_zero given : map inj_value (map as_zero given) = map inj_value given.
+Proof. rewrite map_map. apply map_ext. intros w; destruct w as [m| |[m|]| | |]; reflexivity. Qed.
+
+Lemma fill_as_zero given : map fill (map as_zero given) = map fill given.
+Proof. rewrite map_map. apply map_ext. intros w; destruct w as [m| |[m|]| | |]; reflexivity. Qed.
+
+Lemma inject_as_zero c given : inject c (map as_zero given) = inject c given.
+Proof.
+  unfold inject, inj_accepts. rewrite is_bad_as_zero, inj_value_as_zero, fill_as_zero, map_length. reflexivity.
+Qed.
+
+Lemma used_as_zero c given : used c (map as_zero given) = used c given.
+Proof. unfold used. rewrite inject_as_zero. reflexivity. Qed.
+
+Lemma inject_has_weights c given loaded : inject c given = Some loaded -> forallb has_weight loaded = true.
+Proof.
+  unfold inject. destruct (existsb is_bad given); [discriminate|].
+  destruct (inj_accepts c given); intros H; inversion H; subst; apply forallb_forall; intros w Hin;
+    apply in_map_iff in Hin as [x [<- _]]; [destruct x as [m| |[m|]| | |]|]; reflexivity.
+Qed.
+
+(* weights that sum to one, some stages having an entry without weight or no entry: kept, those stages weigh 0 *)
+Lemma used_entries_kept c given ms : 1 <= c -> (1 <= length given)%nat ->
+  Forall (fun w => match w with WNum _ | WMissing | WEntry => True | _ => False end) given ->
+  ms = map (fun w => match w with WNum m => m | _ => 0 end) given ->
+  nonneg ms -> sumZ ms = 1000 * c ->
+  used c given = Some (map (Z.mul (NN given)) ms).
+Proof.
+  intros Hc Hn Hk -> Hp Hs. apply used_keeps; try assumption; clear Hp Hs Hn.
+  - induction Hk as [|w l Hw _ IH]; [reflexivity|]. cbn [existsb]. rewrite IH. destruct w; cbn in Hw; try contradiction; reflexivity.
+  - induction Hk as [|w l Hw _ IH]; [reflexivity|]. cbn [existsb]. rewrite IH. destruct w; cbn in Hw; try contradiction; reflexivity.
+  - induction Hk as [|w l Hw _ IH]; [reflexivity|]. cbn [map all_some]. rewrite IH.
+    destruct w; cbn in Hw; try contradiction; reflexivity.
 Qed.
